@@ -380,6 +380,15 @@ def main(out_path):
         L.append(f"Definition {nm} (e_user p_user : N) (e_start e_end p_when : Z) : bool :=\n  {tr_window(cond)}.")
     L.append("")
 
+    # --- exclude handling in fetch_single_imported_audit
+    fsi = fn_body(storage, "fetch_single_imported_audit")
+    if not re.search(r"for\s+excluded\s+in\s+exclude\s*\{[^}]*audit_file\.audits\.remove\(excluded\)", fsi):
+        raise TranslateError("exclude no longer removes the excluded crates' audits in fetch_single_imported_audit")
+    keeps = not re.search(r"for\s+excluded\s+in\s+exclude\s*\{[^}]*audit_file\.wildcard_audits\.remove\(excluded\)", fsi)
+    L.append("(* does `exclude` leave the excluded crates' wildcard audits in the import? *)")
+    L.append(f"Definition EXCLUDE_KEEPS_WILDCARDS : bool := {'true' if keeps else 'false'}.")
+    L.append("")
+
     # --- storage constants
     m = re.search(r"let\s+max_end_date\s*=\s*today\s*\+\s*chrono::Months::new\((\d+)\)", storage)
     if not m:
